@@ -23,11 +23,11 @@ WORKERS = 6
 
 
 # ------------------------------------------------------------------------------------------------ core programs
-def core_trees():
-    """All programs of ProgGen!CorePrograms, enumerated by TLC (trees)."""
+def core_trees(maxlen=2):
+    """All programs of ProgGenCore!CorePrograms(maxlen), enumerated by TLC (trees)."""
     work = vlib.mktmp("core")
     out = os.path.join(work, "core.ndjson")
-    r = vlib.tlc("ProgGenCore", "ProgGenCore.cfg", env={"OUT": out}, workers=1, timeout=600)
+    r = vlib.tlc("ProgGenCore", "ProgGenCore.cfg", env={"OUT": out, "MAXLEN": str(maxlen)}, workers=1, timeout=900)
     if not r.ok:
         raise vlib.InfraError("ProgGenCore failed rc=%s\n%s" % (r.rc, r.out[-3000:]))
     rows = vlib.read_ndjson(out)
